@@ -26,10 +26,7 @@ EXPECTED = [
 
 
 def build(S, tier, seed):
-    act = _base(S)
-    S.verify(put.ForFile())
-    S.lemma('put/lemma/rest-of-a-clean-path', put.lemma_rest_of_clean_path)
-    S.verify(put.TryTrash(), active=[put.PutMove().key, put.PutRemoveFile().key])
+    act = put.leaf_vcs(S)
     put.trash_file_in_vc(S, conservation=False)
     put.trash_file_vc(S)
     put.trash_single_vc(S)
